@@ -1497,6 +1497,52 @@ pub fn table_cache_scenario(options: &DbOptions, numbers: &[u64], lookups: &[u64
     Some(out)
 }
 
+/// Two tables (numbers 1 and 2) that share the block cache of `options`: `burn` cache ids are drawn first, the tables are built from
+/// `tables[i]` = entries (user key, sequence, value), then `reads` = (table index, user key, sequence) are served through one table
+/// cache with `fill_cache` on (tables are opened - and draw their cache id - at their first read).
+/// Returns (last burnt id, offsets of the data blocks per table, value per read).
+pub fn shared_block_cache_reads(
+    options: &DbOptions,
+    burn: u64,
+    tables: &[Vec<(Vec<u8>, u64, Vec<u8>)>],
+    reads: &[(usize, Vec<u8>, u64)],
+) -> Option<(u64, Vec<Vec<u64>>, Vec<Option<Vec<u8>>>)> {
+    let mut last = 0;
+    for _ in 0..burn {
+        last = options.block_cache().new_id();
+    }
+    let mut offsets = vec![];
+    for (i, entries) in tables.iter().enumerate() {
+        let number = 1 + i as u64;
+        let mut b = TableBuilder::new(options.clone(), number).ok()?;
+        for e in entries {
+            b.add_entry(std::rc::Rc::new(InternalKey::new(e.0.clone(), e.1, Operation::Put)), &e.2).ok()?;
+        }
+        b.finalize().ok()?;
+        core::mem::forget(b);
+        let path = crate::file_names::FileNameHandler::new(options.db_path().to_string()).get_table_file_path(number);
+        let file = options.filesystem_provider().open_file(&path).ok()?;
+        let mut no_cache = options.clone();
+        no_cache.block_cache = Arc::new(NoCache {});
+        let table = Table::open(no_cache, file).ok()?;
+        let mut it = table.index_block_for_verif().iter();
+        let mut offs = vec![];
+        it.seek_to_first().ok()?;
+        while it.is_valid() {
+            let (_, raw) = it.current()?;
+            offs.push(crate::tables::verif_access::BlockHandle::try_from(raw).ok()?.get_offset());
+            it.next();
+        }
+        offsets.push(offs);
+    }
+    let tc = TableCache::new(options.clone(), 10);
+    let mut out = vec![];
+    for (t, k, seq) in reads {
+        out.push(tc.get(&ReadOptions { fill_cache: true, snapshot: None }, 1 + *t as u64, &InternalKey::new_for_seeking(k.clone(), *seq)).ok().flatten());
+    }
+    Some((last, offsets, out))
+}
+
 /// Serialise a log fragment of the given type (0 Full, 1 First, 2 Middle, 3 Last) and payload and parse it back.
 /// Returns (type, payload) of the parsed fragment (None: the bytes did not parse).
 pub fn block_record_roundtrip(block_type: u8, data: &[u8]) -> Option<(u8, Vec<u8>)> {
